@@ -58,26 +58,33 @@ def problems(
         N = sum(blocks)
     n_params = draw(st.integers(1, max_params))
     eden = 4
+    # "far offset" class: all levels sit on a large offset (4096) and some in-block gaps are 1/32, i.e. far above
+    # atol = 1e-12 but below numpy.isclose's default relative tolerance 1e-5 * |E|: such levels are *distinct* for the
+    # library (it compares in-block levels with the absolute tolerance) and every number is still exactly representable.
+    far = draw(st.integers(0, 5)) == 0
+    unit = 8 if far else 1  # energies are integers over eden; in the far class eden = 32
+    if far:
+        eden = 32
     # --- spectrum, by construction
     base = 0
-    offset = draw(st.integers(-12, 12))
+    offset = draw(st.integers(-12, 12)) * unit + (4096 * 32 if far else 0)
     energy_by_block = []
     for b, s in enumerate(blocks):
         pattern = draw(st.sampled_from(["equal", "partly", "distinct"]))
         if pattern == "equal" or s == 1:
             rel = [0] * s
         elif pattern == "distinct":
-            gaps = [draw(st.integers(1, 3)) for _ in range(s - 1)]
+            gaps = [draw(st.sampled_from([1, 1, 8, 16])) if far else draw(st.integers(1, 3)) for _ in range(s - 1)]
             rel = [0] + list(itertools.accumulate(gaps))
         else:
-            gaps = [draw(st.integers(0, 2)) for _ in range(s - 1)]
+            gaps = [draw(st.sampled_from([0, 1, 8])) if far else draw(st.integers(0, 2)) for _ in range(s - 1)]
             rel = [0] + list(itertools.accumulate(gaps))
         rel = draw(st.permutations(rel))
         energy_by_block.append([base + r for r in rel])
-        base += max(rel) + draw(st.integers(8, 14))  # cross-block gap >= 2 (8 units of 1/4)
+        base += max(rel) + draw(st.integers(8, 14)) * unit  # cross-block gap >= 2 (8 units of 1/4)
     if not hermitian and complex_energy:
         # complex energies: rotate block bases into the complex plane, keeping |gap| >= 2
-        imag_by_block = [draw(st.integers(-8, 8)) for _ in blocks]
+        imag_by_block = [draw(st.integers(-8, 8)) * unit for _ in blocks]
     else:
         imag_by_block = [0] * n_blocks
     # --- interleaving of basis states
@@ -91,7 +98,7 @@ def problems(
         eimag.append(imag_by_block[b])
         counters[b] += 1
     if all(e == 0 for e in energy) and all(e == 0 for e in eimag):
-        energy = [e + 4 for e in energy]  # an all-zero H_0 diagonal is rejected by design
+        energy = [e + eden for e in energy]  # an all-zero H_0 diagonal is rejected by design
     # --- perturbation terms
     cplx = draw(st.booleans())
     den = draw(st.sampled_from([1, 2, 2, 4]))
@@ -185,6 +192,7 @@ def problems(
         "selection": selection,
         "repr": rep,
         "K": K,
+        "ref_shift": 4096 * 32 if far else 0,
     }
 
 
